@@ -1085,6 +1085,7 @@ def check_bounds(case, ctx):
 # ---------------------------------------------------------------------------
 
 MAX_CONCAT_RXNS = 40
+MAX_SUM_RXNS = 60
 
 
 def new_state():
@@ -1175,6 +1176,11 @@ def apply_op(state, op, ctx):
         if ib == ia:
             ib = (ia + 1) % len(pool)
         b = pool[ib]
+        if kind != "concat" and len(a["rids"]) + len(b["rids"]) > MAX_SUM_RXNS:
+            # sums re-enter the pool, so repeated + / += would double the systems every few steps (the cost of the
+            # structural queries grows faster than linearly): beyond this size the step is a no-op
+            ctx.label("op:%s_skipped_size_cap" % kind)
+            return
         ctx.label("op:" + kind)
         state["after_add"] = True
         if kind == "add_sys":
